@@ -83,10 +83,16 @@ def gen_block(rng, depth, in_loop, names, budget):
             out.append((rng.choice(["break", "continue"]),))
             if rng.random() < 0.5:
                 break  # otherwise keep generating: dead code after the jump
+            recent = [t[1] for t in out if t[0] == "asg"]
+            if recent and rng.random() < 0.7:
+                out.append(("use", recent[-1]))
         elif r < 0.93:
             out.append(("return",))
             if rng.random() < 0.4:
                 break  # otherwise keep generating: dead code after the return
+            recent = [t[1] for t in out if t[0] == "asg"]
+            if recent and rng.random() < 0.7:
+                out.append(("use", recent[-1]))  # dead code reading what the live code just assigned
         elif r < 0.97 and depth < 2 and names["nested"] < 2:
             names["nested"] += 1
             cap = rng.sample(names["readable"][:6], rng.randint(0, 2))
@@ -390,6 +396,118 @@ def oracle(cap):
     return ("ok", set())
 
 
+# ------------------------------------------------------------------ source-level oracle (independent of the CFG builder)
+
+
+class _St:
+    """abstract state at a program point: reachable over real edges?, variables assigned on every path"""
+
+    __slots__ = ("reach", "defs")
+
+    def __init__(self, reach, defs):
+        self.reach, self.defs = reach, frozenset(defs)
+
+    def __eq__(self, o):
+        return o is not None and self.reach == o.reach and self.defs == o.defs
+
+
+def _join(states):
+    """join at a control-flow merge: edges from unreachable code into reachable code are pruned"""
+    states = [s for s in states if s is not None]
+    if not states:
+        return None
+    live = [s for s in states if s.reach]
+    pick = live or states
+    d = set(pick[0].defs)
+    for s in pick[1:]:
+        d &= s.defs
+    return _St(bool(live), d)
+
+
+def source_undefined(body):
+    """Variables read on some syntactic path before any assignment, following the statement's reading:
+    branch conditions are ignored, code after return/break/continue and behind constant conditions is
+    still analysed (entered from the state at the jump / the condition), and merges from dead code into
+    live code do not count."""
+    assigned = set(a for a, _ in ARGS)
+
+    def collect(b):
+        for st in b:
+            if st[0] == "asg":
+                assigned.add(st[1])
+            elif st[0] == "if":
+                collect(st[2]); collect(st[3])
+            elif st[0] == "while":
+                collect(st[2])
+            elif st[0] == "for":
+                assigned.add(st[1]); collect(st[2])
+            elif st[0] == "nested":
+                assigned.add(st[1])
+    collect(body)
+    bad = set()
+
+    def use(x, s):
+        if s is None or x in s.defs or x == "c":
+            return
+        if x in assigned or x not in (GLOBAL,):
+            bad.add(x)
+
+    def cond_use(c, s):
+        if c[0] == "var":
+            use(c[1], s)
+
+    def block(b, s, brk, cnt):
+        # returns the state after the block (None if nothing flows out at all)
+        for st in b:
+            if s is None:
+                return None
+            k = st[0]
+            if k == "asg":
+                s = _St(s.reach, s.defs | {st[1]})
+            elif k == "use":
+                use(st[1], s)
+            elif k == "nested":
+                for x in st[2]:
+                    if x != "p":
+                        use(x, s)
+                s = _St(s.reach, s.defs | {st[1]})
+            elif k == "return":
+                s = _St(False, s.defs)
+            elif k in ("break", "continue"):
+                (brk if k == "break" else cnt).append(s)
+                s = _St(False, s.defs)
+            elif k == "if":
+                cond_use(st[1], s)
+                c = st[1]
+                st_t = s if not (c[0] == "const" and c[1] == "False") else _St(False, s.defs)
+                st_e = s if not (c[0] == "const" and c[1] == "True") else _St(False, s.defs)
+                a = block(st[2], st_t, brk, cnt)
+                e = block(st[3], st_e, brk, cnt)
+                s = _join([a, e])
+            elif k in ("while", "for"):
+                head = s
+                while True:
+                    if k == "while":
+                        cond_use(st[1], head)
+                        c = st[1]
+                        body_in = head if not (c[0] == "const" and c[1] == "False") else _St(False, head.defs)
+                        exit_in = head if not (c[0] == "const" and c[1] == "True") else _St(False, head.defs)
+                    else:
+                        body_in = _St(head.reach, head.defs | {st[1]})
+                        exit_in = head
+                    b2, c2 = [], []
+                    out = block(st[2], body_in, b2, c2)
+                    new_head = _join([s, out, *c2])
+                    if new_head == head:
+                        break
+                    head = new_head
+                s = _join([exit_in, *b2])
+        return s
+
+    block(body, _St(True, {a for a, _ in ARGS} | {"c"}), [], [])
+    return bad
+
+
 # ------------------------------------------------------------------ protocol
 
 
@@ -475,6 +593,14 @@ def tie(ctx):
                 "input:" + src,
                 f"check() outcome {real} differs from the path-based reading {orc[0]} {sorted(orc[1])}",
                 {"program": body, "source": src, "real": real, "oracle": [orc[0], sorted(orc[1])], "cfg": cap},
+            )
+        # independent of the CFG builder: the same verdict from the source text
+        src_bad = source_undefined(body)
+        if (real[0] == "undefined") != bool(src_bad) or (real[0] == "undefined" and real[1] not in src_bad):
+            ctx.violation(
+                "input:" + src,
+                f"check() outcome {real} differs from the source-level reading: variables read before assignment on some path = {sorted(src_bad)}",
+                {"program": body, "source": src, "real": real, "source_oracle_undefined": sorted(src_bad), "cfg": cap},
             )
         line, rev = sx_cap(cap)
         lines.append(line)
